@@ -51,3 +51,11 @@ BUILT['C06'] = (
     "compared with R p + t evaluated in longdouble to 1e-9 of the data magnitude; composition/inverse/distance/handedness laws "
     "and the matrix / unit-quaternion / dual-quaternion / homogeneous-function routes are compared on the same data",
     NOTE, "DESIGN.md 4 C06")
+BUILT['C07'] = (
+    "constructor oracle at the class boundary + object-invariant hook on every __init__ + membership and scalar predicates "
+    "judged against an independent SVD distance to the group, outside a 1e-6 band only",
+    "valid members (library primitives and reference-built) are corrupted by noise 1e-12..1 in one/all entries, scaling, "
+    "reflections, column swaps and last-row errors and supplied bare and inside lists/tuples mixed with valid items to every "
+    "class constructor and predicate with checking on; anything further than 1e-6 from the group must raise / be False, "
+    "unperturbed primitives must be accepted, and no constructed object may hold None or a wrongly shaped element",
+    NOTE, "DESIGN.md 4 C07")
